@@ -31,4 +31,6 @@ int raw_value(int abstract_value);
 // the CLI's main(), present only when the check links tools/asmline.c
 int cli_main(int argc, char **argv);
 bool cli_present();
+// two unsynchronised threads increment a plain variable in instrumented code (TSan canary)
+int race_canary();
 }  // namespace lib
